@@ -88,6 +88,8 @@ pub mod utils;
 
 #[cfg(feature = "verif")]
 pub mod verif;
+#[cfg(feature = "verif")]
+pub mod verif_sync;
 
 #[cfg(feature = "stats")]
 mod stats;
